@@ -151,6 +151,19 @@ func Run(prog []bn.Stmt, opt Options) (res *Result) {
 	return res
 }
 
+// shadowTag records a use of a name that two live scopes of the chain bind.
+func (in *interp) shadowTag(name string, env *Env) {
+	n := 0
+	for s := env; s != nil; s = s.Parent {
+		if _, ok := s.Vars[name]; ok {
+			n++
+		}
+	}
+	if n >= 2 {
+		in.tag("shadowed-use")
+	}
+}
+
 func (in *interp) step() {
 	in.res.Steps++
 	if in.res.Steps > in.opt.MaxSteps {
@@ -537,6 +550,7 @@ func (in *interp) eval(e bn.Expr, env *Env) Value {
 		if v == nil {
 			in.fail(EUndefined, e.Line, e.Name)
 		}
+		in.shadowTag(e.Name, env)
 		return *v
 	case *bn.Group:
 		return in.eval(e.E, env)
@@ -566,6 +580,7 @@ func (in *interp) eval(e bn.Expr, env *Env) Value {
 		if slot == nil {
 			in.fail(EUndefined, e.Line, e.Name)
 		}
+		in.shadowTag(e.Name, env)
 		*slot = v
 		return v
 	case *bn.IndexSet:
